@@ -691,6 +691,42 @@ impl Gen {
                 return;
             }
         }
+        if self.p.w_savepoint > 0 && self.p.w_reader > 0 && self.readers.len() < 4 && rng.random_range(0..100) < 5 {
+            // a reader that is OLDER than a live savepoint: the reader begins, a durable commit frees pages of its tree,
+            // a savepoint is made on top of that commit and kept while more durable commits run (their epilogues release
+            // freed pages up to a horizon), later commits reuse what was released, then the old reader is read again
+            let normal: Vec<(String, Ty)> = self.known.iter().filter(|(_, t)| t.0 == "t").map(|(n, t)| (n.clone(), t.clone())).collect();
+            if !normal.is_empty() {
+                let (n, ty) = normal[rng.random_range(0..normal.len())].clone();
+                let h = self.fresh("r");
+                self.queue.push_back(json!({"e": "br", "h": h}));
+                let persistent = rng.random_range(0..3) == 0;
+                for t in 0..rng.random_range(4..7) {
+                    self.queue.push_back(json!({"e": "bw"}));
+                    if t == 1 {
+                        if persistent {
+                            self.queue.push_back(json!({"e": "spp"}));
+                        } else {
+                            let s = self.fresh("s");
+                            self.queue.push_back(json!({"e": "spe", "s": s}));
+                        }
+                    }
+                    self.queue.push_back(json!({"e": "open", "n": n, "kind": "t", "kt": ty.1, "vt": ty.2}));
+                    for _ in 0..rng.random_range(3..9) {
+                        if rng.random_range(0..3) == 0 {
+                            self.queue.push_back(json!({"e": "rem", "n": n, "k": self.key(rng, &n)}));
+                        } else {
+                            let v = self.value(rng, &ty.2);
+                            self.queue.push_back(json!({"e": "ins", "n": n, "k": self.key(rng, &n), "v": v}));
+                        }
+                    }
+                    self.queue.push_back(json!({"e": "close", "n": n}));
+                    self.queue.push_back(json!({"e": "commit"}));
+                }
+                self.queue.push_back(json!({"e": "dump", "src": h}));
+                return;
+            }
+        }
         self.queue.push_back(json!({"e": "bw"}));
         self.wtx_budget = rng.random_range(1..=self.p.ops_per_txn.max(1));
     }
